@@ -22,6 +22,18 @@ type Entry struct {
 	HasTitle bool   `json:"has_title"`
 	Content  string `json:"content"`
 	Fault    string `json:"fault,omitempty"` // "" | missing | directory
+	// Bulk: the file continues with BulkN copies of BulkUnit (kept symbolic so that case files stay small):
+	// one line of 70,000 characters, or tens of thousands of short lines
+	BulkUnit string `json:"bulk_unit,omitempty"`
+	BulkN    int    `json:"bulk_n,omitempty"`
+}
+
+// full returns the complete file content of the entry.
+func (en Entry) full() string {
+	if en.BulkN > 0 {
+		return en.Content + strings.Repeat(en.BulkUnit, en.BulkN)
+	}
+	return en.Content
 }
 
 type Case struct {
@@ -95,7 +107,7 @@ func check(c Case) error {
 				os.MkdirAll(p, 0o755)
 			}
 		default:
-			if err := os.WriteFile(p, []byte(en.Content), 0o644); err != nil {
+			if err := os.WriteFile(p, []byte(en.full()), 0o644); err != nil {
 				return err
 			}
 			written[en.Name] = true
@@ -183,14 +195,15 @@ func consume(s string, c Case) error {
 		if !ok || strings.TrimRight(line, " ") != "```" {
 			return fail(i, "expected an opening code fence, found %q", line)
 		}
-		if !strings.HasPrefix(s[pos:], en.Content) {
+		content := en.full()
+		if !strings.HasPrefix(s[pos:], content) {
 			got := s[pos:]
-			if len(got) > len(en.Content)+20 {
-				got = got[:len(en.Content)+20]
+			if len(got) > len(content)+20 {
+				got = got[:len(content)+20]
 			}
-			return fail(i, "the file content is not shown verbatim: README has %q, file %s holds %q", got, en.Name, en.Content)
+			return fail(i, "the file content is not shown verbatim: README has %q, file %s holds %q", got, en.Name, pipeline.Clip(content, 300))
 		}
-		pos += len(en.Content)
+		pos += len(content)
 		// the rest of the content's last line must be empty, then the closing fence
 		if pos < len(s) && s[pos] != '\n' {
 			return fail(i, "text follows the file content on its last line: %q", pipeline.Clip(s[pos:], 40))
@@ -249,7 +262,7 @@ func genCase(t *rapid.T) Case {
 		}
 		if prev, ok := used[en.Name]; ok {
 			// the same file listed twice: same content
-			en.Content = c.Entries[prev].Content
+			en.Content, en.BulkUnit, en.BulkN = c.Entries[prev].Content, c.Entries[prev].BulkUnit, c.Entries[prev].BulkN
 		} else {
 			k := rapid.IntRange(0, 6).Draw(t, "lines")
 			var ls []string
@@ -259,6 +272,16 @@ func genCase(t *rapid.T) Case {
 			en.Content = strings.Join(ls, "\n")
 			if k > 0 && rapid.Bool().Draw(t, "contentFinalNL") {
 				en.Content += "\n"
+			}
+			if rapid.IntRange(0, 19).Draw(t, "bulk") == 0 {
+				switch rapid.IntRange(0, 2).Draw(t, "bulkKind") {
+				case 0: // one very long line (beyond the 64 KB token limit of a bufio.Scanner)
+					en.BulkUnit, en.BulkN = "x", 70000
+				case 1: // many short lines
+					en.BulkUnit, en.BulkN = "let v = 1\n", 30000
+				default: // no line end at all for more than a buffer
+					en.BulkUnit, en.BulkN = "ab ", 5000
+				}
 			}
 			if rapid.IntRange(0, 9).Draw(t, "rawText") == 0 {
 				en.Content = rapid.StringOfN(rapid.RuneFrom([]rune("ab \n`#[]()é\t")), 0, 30, -1).Draw(t, "raw")
@@ -313,6 +336,12 @@ func classify(c Case) (bool, []string) {
 	}
 	if !c.FinalNL {
 		labels = append(labels, "no final newline")
+	}
+	for _, en := range c.Entries {
+		if en.BulkN > 0 {
+			labels = append(labels, "a listed file with a very long line or tens of thousands of lines")
+			break
+		}
 	}
 	for _, en := range c.Entries {
 		if strings.Contains(en.Content, "```") || strings.Contains(en.Content, "###") || strings.Contains(en.Content, "generated go:") {
